@@ -29,6 +29,14 @@ func (ex *Exec) call(fr *Frame, st *State, site ssa.Instruction, c *ssa.CallComm
 	}
 	fv, ok := ex.operand(fr, c.Value).(*FuncVal)
 	if !ok {
+		// a closure that went through the heap comes back as its id
+		if t, isT := ex.operand(fr, c.Value).(*Term); isT && t.Op == "fnp" {
+			if id, lit := t.Args[0].IsInt(); lit && closureByID[int(id)] != nil {
+				fv, ok = closureByID[int(id)], true
+			}
+		}
+	}
+	if !ok {
 		txt := ex.prog.callFunText(site.Pos())
 		pure := false
 		if top := fr.topFrame(); top.con != nil {
@@ -344,8 +352,14 @@ func (ex *Exec) calleeEnv(fn *ssa.Function, con *Contract, args []Val, pre, post
 		}
 	}
 	for _, lv := range sc.logical {
-		env.objs[lv] = BoundVar("lv."+lv.Name(), leafSort(lv.Type()))
-		env.logicalBound = append(env.logicalBound, env.objs[lv].(*Term))
+		ls := typeLeaves(lv.Type(), "", nil)
+		leaves := make([]*Term, len(ls))
+		for k, l := range ls {
+			leaves[k] = BoundVar("lv."+lv.Name()+l.path, l.sort)
+		}
+		p := 0
+		env.objs[lv] = unflatten(lv.Type(), leaves, &p)
+		env.logicalBound = append(env.logicalBound, leaves...)
 	}
 	// captures of the callee are not observable from outside: arbitrary values
 	for name, v := range sc.extra {
